@@ -4,7 +4,7 @@ CONSTANTS N = 3
   Cycles = 3
   Drops = {0, 1, 2}
   CharUsers = {0, 3}
-  Extras = {"none", "err1", "aerr1", "tick", "conn"}
+  Extras = {"none", "err1", "aerr1", "exec1", "tick", "conn"}
   Sim = FALSE
 INVARIANT Emit
 CHECK_DEADLOCK FALSE
